@@ -143,7 +143,26 @@ fn gen_case(rng: &mut Rng, tier: Tier) -> HistCase {
     let mut modes: Vec<usize> = Vec::new();
     let siblings = rng.chance(0.35);
     for mi in 0..n_maps {
-        if siblings && mi > 0 {
+        if siblings && mi > 0 && modes[0] == 0 && rng.chance(0.4) {
+            // a twin of the first map: same header, timing and object times, but circles and sliders
+            // swapped (anything memoised on a summary of the map that ignores the object kinds would
+            // confuse the two)
+            let mut twin = maps[0].clone();
+            for line in twin.objects.iter_mut() {
+                let f: Vec<&str> = line.split(',').collect();
+                if f.len() < 5 {
+                    continue;
+                }
+                let Ok(ty) = f[3].trim().parse::<u32>() else { continue };
+                if ty & 1 != 0 {
+                    *line = format!("{},{},{},{},{},L|300:310,1,90", f[0], f[1], f[2], (ty & !1) | 2, f[4]);
+                } else if ty & 2 != 0 {
+                    *line = format!("{},{},{},{},{}", f[0], f[1], f[2], (ty & !2) | 1, f[4]);
+                }
+            }
+            maps.push(twin);
+            modes.push(0);
+        } else if siblings && mi > 0 {
             // a different map of the same mode with the same number of objects as the first one
             let mode = modes[0];
             let mut sh = gen_shape(rng, mode, max_n);
